@@ -31,6 +31,12 @@ pub fn years_alphabet() -> Alphabet {
         evs.push(alpha::sell(*d, "A", "1", "10", "0"));
         evs.push(alpha::sell(*d, "B", "3", &format!("{} USD", 15 + i), "1 EUR"));
         evs.push(alpha::sell(*d, "B", "2", "9 EUR", "0.75 USD"));
+        // value-range corners: sale costs above the consideration (net proceeds negative), and a sale at price 0
+        if i % 3 == 0 {
+            evs.push(alpha::sell(*d, "A", "1", "0.5", "2"));
+        } else if i % 3 == 1 {
+            evs.push(alpha::sell(*d, "A", "4", "0", "0.4"));
+        }
         if i % 2 == 0 {
             evs.push(alpha::dividend(*d, "A", "30", "3"));
             evs.push(alpha::dividend(*d, "B", "20 USD", "0"));
